@@ -8,7 +8,7 @@ from comp.bits import gen
 RULE = ("seeded op scripts: bitset<N> for N in 1..130, 191..193, 255..257, 320 (4 registers; constructors, set/reset/flip/test, "
         "proxy reference ops, &= |= ^= ~ & | ^, <<= >>= << >> by 0..N+200, word/offset boundaries, 2^k and 2^64-1, "
         "count/any/all/none/==) each op followed by a bit-by-bit comparison of all registers with std::bitset<N> and a "
-        "padding inspection; array<T,N> for T in uint64_t, double, float (incl. +-0.0, NaNs, inf), const char*, an enum, a struct with padding and its own non-bitwise operator== vs std::array (front/back/[]/iteration/get/swap/==/!=/array_concat of 1..5 arrays of mixed lengths); mt19937 (seeds 0,1,5489,2^32-1,random; >= 2000 outputs and "
+        "padding inspection; array<T,N> for T in uint64_t, double, float (incl. +-0.0, NaNs, inf), const char*, an enum, a struct with padding and its own non-bitwise operator== vs std::array (front/back/[]/iteration/get/swap/==/!=/array_concat of 1..5 arrays of mixed lengths incl. zero-length frg::array/std::array pieces in every position, std::array arguments, and constant evaluation); mt19937 (seeds 0,1,5489,2^32-1,random; >= 2000 outputs and "
         "the full private state) vs std::mt19937; pcg_basic32 vs the pcg-c-basic reference; insertion_sort on all arrays of "
         "length <= 6 over 3 keys (tagged) and random ones under 5 comparators. non-trivial = distinct script that "
         "(bitset) shifts across a word boundary or by >= N, (mt) passes >= 1 regeneration, (pcg) makes a bounded draw, "
@@ -41,7 +41,7 @@ def nontrivial(cid, lines, ri):
     if k == "sortcase":
         return "|".join(lines) if any(len(l.split()) >= 4 for l in lines) else None
     if k == "array":
-        return "|".join(lines) if any(l.startswith(("back", "concat", "eq")) for l in lines) else None
+        return "|".join(lines) if any(l.startswith(("back", "concat", "eq")) for l in lines) or "cconcat" in lines[0] else None
     return None
 
 GEN_OBLIGATIONS = ["BitsConsts_mt_ok", "BitsConsts_pcg_ok", "BitsConsts_bitset_ok"]
@@ -145,4 +145,12 @@ def run(c):
         impl.update(vlib.run_cases(exes[name], cs, shards=min(4, max(1, len(cs) // 8)), timeout=300, env=env))
     model = vlib.run_cases(drv, cases, shards=8, timeout=600) if drv else {}
     c.compare(cases, impl, model, nontrivial)
+    # constant evaluation of array_concat under static_assert (separate TU so that a failing assertion does not
+    # take the run-time harness, and with it the failing inputs, away)
+    rc, o, e = vlib.sh(["g++"] + vlib.CXX_BASE + ["-fsyntax-only", os.path.join(vlib.ROOT, "comp/bits/constexpr_check.cpp")], timeout=300)
+    c.count("bits_constexpr_static_asserts", 7)
+    if rc != 0:
+        msg = next((l for l in e.split("\n") if "static assertion failed" in l or "error" in l), e.strip()[:200])
+        c.oracle("array-constexpr", "constexpr_check.cpp does not compile: " + msg.strip()[:300],
+                 "corpus-array-concat-empty-constexpr", ["array cconcat"])
     return True
